@@ -422,6 +422,14 @@ func (j *job) explore(maxStates int64) *search {
 	s.nodes = append(s.nodes, root)
 	s.visited[vkey{root.key, root.or.first}] = []uint16{0}
 	s.states = 1
+	s.complete = true
+	if fs := j.judge(ob0, nil, false, nil, false, ob0, root.or); len(fs) > 0 {
+		// the empty vote set already violates an oracle: nothing is expanded
+		for _, f := range fs {
+			s.viols = append(s.viols, rawViol{f, 0, -1})
+		}
+		return s
+	}
 	frontier := []int32{0}
 	s.complete = true
 	for len(frontier) > 0 {
